@@ -99,6 +99,9 @@ type fakeClient struct {
 	agent   *gocbcore.Agent
 	snapFn  func() (*gocbcore.ConfigSnapshot, error)
 	seqOmit map[uint16]bool // vBuckets missing from the sequence-number sample
+	// collHigh: per vBucket, what the collection-aware sequence-number query answers (the last item of the configured
+	// collections), where it differs from the vBucket's high seqno
+	collHigh map[uint16]uint64
 }
 
 func newFakeClient(numVb int) *fakeClient {
@@ -117,7 +120,7 @@ func (f *fakeClient) GetAgentConfigSnapshot() (*gocbcore.ConfigSnapshot, error) 
 }
 func (f *fakeClient) GetNumVBuckets() int { return f.numVb }
 
-func (f *fakeClient) GetVBucketSeqNos(bool) (*wrapper.ConcurrentSwissMap[uint16, uint64], error) {
+func (f *fakeClient) GetVBucketSeqNos(aware bool) (*wrapper.ConcurrentSwissMap[uint16, uint64], error) {
 	f.mu.Lock()
 	defer f.mu.Unlock()
 	f.seqCalls++
@@ -129,7 +132,11 @@ func (f *fakeClient) GetVBucketSeqNos(bool) (*wrapper.ConcurrentSwissMap[uint16,
 		if f.seqOmit[uint16(i)] {
 			continue // no node reported this vBucket as active (the real query merges per-node answers)
 		}
-		m.Store(uint16(i), f.high[uint16(i)])
+		h := f.high[uint16(i)]
+		if ch, ok := f.collHigh[uint16(i)]; ok && aware {
+			h = ch // the collection-aware query: the last item of the configured collections, not the vBucket's high seqno
+		}
+		m.Store(uint16(i), h)
 	}
 	return m, nil
 }
